@@ -55,7 +55,11 @@ def gen(seed, tier, extra=None):
     knobs['fanout'] = rng.choice([1, 2, 3])
     knobs['func_includes'] = rng.random() < 0.25
     g = gen_exec.ExecGen(rng, knobs)
-    plan = g.gen_plan()
+    if rng.random() < 0.2:
+        g.k['data'] = False
+        plan = g.structured_plan()
+    else:
+        plan = g.gen_plan()
     plan['seed'] = seed
     plan['scenario'] = 'default-limit' if rng.random() < 0.04 else 'limits'
     plan['sim_options'] = rng.random() < 0.8
@@ -111,6 +115,15 @@ def run(plan, stats):
 
     if plan.get('scenario') == 'default-limit':
         return run_default(plan, stats)
+    if plan.get('source') is not None:
+        # structured source: lowered by the real parser; the reference runs the lowered model
+        from bare_script import parse_script, BareScriptParserError
+        try:
+            plan = dict(plan)
+            plan['model'] = parse_script(plan['source'])['statements']
+        except BareScriptParserError:
+            return RunResult([], digest_of('invalid-source'))
+        stats.probes['structured_source_program'] += 1
 
     ref0 = run_ref(plan, limit=0, cap=CAP)
     if ref0.error is not None and ref0.error[0] == 'unsupported':
